@@ -251,6 +251,21 @@ func (h *h18) spendScenarios() {
 	h.doUpdate(u)
 	h.doEndBlock(T + 6103)
 
+	// a dynamic pool whose only registered claimant loses the role that made it a beneficiary (its claim record stays):
+	// the weights of the registered claimants add up to zero when the period ends - nothing to divide by, nothing happens
+	dw := poolCfg{name: "dw", q: dec("0.5"), vp: 10, ve: 10, oaccs: []int{0}, broles: []wRole{{7, dec("0.5")}}, cx: 100000, dyn: true, dp: 100}
+	h.setRoles(5, []uint64{7})
+	h.doCreate(T+6200, 0, dw)
+	h.doDeposit(0, "dw", []sdk.Coin{c18coin("ukex", 5000)})
+	h.doRegister(T+6200, 5, "dw")
+	h.setRoles(5, nil)
+	h.doEndBlock(T + 6250)
+	h.doEndBlock(T + 6301)
+	h.doEndBlock(T + 6402)
+	h.setRoles(5, []uint64{7})
+	h.doEndBlock(T + 6503)
+	h.doClaim(T+6550, 5, "dw", nil)
+
 	// ---------- D. random op sequences
 	r.Mark("spend: random sequences")
 	n := 1500
